@@ -189,7 +189,7 @@ func (e *Exec) Assume(c *Term) {
 	}
 	if mv, ok := e.evalBool(c); ok && mv {
 		e.S.Stats.Skipped++
-		e.pushDecision(&decision{kind: 2}, c)
+		e.pushDecision(&decision{kind: 2, cond: c}, c)
 		return
 	}
 	r, m := e.checkSatModel(c)
@@ -201,7 +201,7 @@ func (e *Exec) Assume(c *Term) {
 	if r == Unknown {
 		e.R.noteIncon("solver unknown on assume" + e.where())
 	}
-	e.pushDecision(&decision{kind: 2}, c)
+	e.pushDecision(&decision{kind: 2, cond: c}, c)
 	if m != nil {
 		e.setModel(m)
 	} else {
@@ -350,6 +350,16 @@ func (e *Exec) snapshot(label string, m Model) *Violation {
 }
 
 func (r *JobResult) noteViolation(e *Exec, label string, m Model) {
+	if os.Getenv("GOSYM_DEBUG") != "" {
+		fmt.Fprintf(os.Stderr, "VIOLATION %s choices=%v\n", label, e.choices)
+		for i, d := range e.trail {
+			if d.cond != nil {
+				fmt.Fprintf(os.Stderr, "  [%d] kind=%d chosen=%d %s\n", i, d.kind, d.chosen, e.tt.SMT(d.cond))
+			} else {
+				fmt.Fprintf(os.Stderr, "  [%d] kind=%d chosen=%d\n", i, d.kind, d.chosen)
+			}
+		}
+	}
 	r.violSeen[label]++
 	if r.violSeen[label] > 3 {
 		return
@@ -368,6 +378,7 @@ func (r *JobResult) noteKnown(e *Exec, kf, label string, m Model) {
 }
 
 type JobSpec struct {
+	Fixed *Violation
 	Entry    string // function name in package
 	Pkg      string // package path
 	Params   map[string]int64
@@ -420,6 +431,7 @@ func RunJob(P *Program, spec JobSpec, kf map[string]bool) *JobResult {
 	for _, p := range spec.InitPkgs {
 		e.initPkgs[p] = true
 	}
+	e.fixed = spec.Fixed
 	e.maxSteps = spec.MaxSteps
 	if e.maxSteps == 0 {
 		e.maxSteps = 20_000_000
